@@ -1,0 +1,70 @@
+// +build verif
+
+package app
+
+import (
+	"github.com/tendermint/tendermint/store"
+
+	"github.com/Oneledger/protocol/config"
+	"github.com/Oneledger/protocol/data/chain"
+	"github.com/Oneledger/protocol/identity"
+	"github.com/Oneledger/protocol/storage"
+)
+
+// Verification hooks (build tag "verif" only). They let a deterministic simulator drive
+// the application without consensus.NewNode: everything Prepare() does before and after
+// the Tendermint node is created, minus the node itself.
+
+// VerifPrepare installs the genesis document and block store and reloads the options the
+// way Prepare() does on a restarted node. witnessInitNow runs witnesses.Init immediately
+// (Prepare() races it against InitChain; both orders are legal).
+func (app *App) VerifPrepare(gen *config.GenesisDoc, bs *store.BlockStore, witnessInitNow bool) error {
+	if err := app.verifPrepareOptions(); err != nil {
+		return err
+	}
+	app.genesisDoc = gen
+	if witnessInitNow {
+		app.VerifWitnessInit()
+	}
+	app.Context.SetBlockStore(bs)
+	return nil
+}
+
+// VerifWitnessInit runs the real witnesses.Init for this node and returns the flag it computed.
+func (app *App) VerifWitnessInit() bool {
+	app.Context.witnesses.Init(chain.ETHEREUM, app.Context.node.ValidatorAddress())
+	return identity.VerifETHWitness()
+}
+
+// VerifAlive reports whether the application database is still open (handlePanic closes it).
+func (app *App) VerifAlive() (alive bool) {
+	defer func() {
+		if r := recover(); r != nil {
+			alive = false
+		}
+	}()
+	_, err := app.Context.db.Get([]byte("verif-alive-probe"))
+	return err == nil
+}
+
+// VerifChainState exposes the committed tree for read-only dumps.
+func (app *App) VerifChainState() *storage.ChainState {
+	return app.Context.chainstate
+}
+
+// VerifCheckState / VerifDeliverState expose the two working states (read-only use).
+func (app *App) VerifCheckState() *storage.State   { return app.Context.check }
+func (app *App) VerifDeliverState() *storage.State { return app.Context.deliver }
+
+// VerifClose releases the resources of an abandoned instance; never panics.
+func (app *App) VerifClose() {
+	safe := func(f func()) {
+		defer func() { recover() }()
+		f()
+	}
+	safe(func() { app.Context.db.Close() })
+	safe(func() { app.Context.accounts.Close() })
+	safe(func() { app.Context.jobStore.Close() })
+	safe(func() { app.Context.lockScriptStore.Close() })
+	safe(func() { app.Context.jobBus.Close() })
+}
